@@ -1,15 +1,15 @@
 typedef unsigned long u64;
-u64 ga = 851; u64 gb = 29; u64 gc_[4] = {1,2,3,143}; static u64 sa = 191; static u64 sb[3] = {384,5,6};
+u64 ga = 218; u64 gb = 964; u64 gc_[4] = {1,2,3,425}; static u64 sa = 221; static u64 sb[3] = {567,5,6};
 __thread u64 tva = 3; __thread u64 tvb = 4;
 extern u64 ext_a, ext_b; extern u64 ext_f(u64); extern u64 ext_g(u64);
-__attribute__((noinline)) u64 fn0(u64 x) { return x * 817 + ga + sb[0]; }
-__attribute__((noinline)) static u64 sf0(u64 x) { return (x ^ 851) + sa + gb; }
-__attribute__((noinline)) u64 fn1(u64 x) { return x * 789 + ga + sb[1]; }
-__attribute__((noinline)) static u64 sf1(u64 x) { return (x ^ 29) + sa + gb; }
-__attribute__((noinline)) u64 fn2(u64 x) { return x * 83 + ga + sb[2]; }
-__attribute__((noinline)) static u64 sf2(u64 x) { return (x ^ 143) + sa + gb; }
-__attribute__((noinline)) u64 fn3(u64 x) { return x * 627 + ga + sb[0]; }
-__attribute__((noinline)) static u64 sf3(u64 x) { return (x ^ 191) + sa + gb; }
+__attribute__((noinline)) u64 fn0(u64 x) { return x * 81 + ga + sb[0]; }
+__attribute__((noinline)) static u64 sf0(u64 x) { return (x ^ 218) + sa + gb; }
+__attribute__((noinline)) u64 fn1(u64 x) { return x * 409 + ga + sb[1]; }
+__attribute__((noinline)) static u64 sf1(u64 x) { return (x ^ 964) + sa + gb; }
+__attribute__((noinline)) u64 fn2(u64 x) { return x * 637 + ga + sb[2]; }
+__attribute__((noinline)) static u64 sf2(u64 x) { return (x ^ 425) + sa + gb; }
+__attribute__((noinline)) u64 fn3(u64 x) { return x * 105 + ga + sb[0]; }
+__attribute__((noinline)) static u64 sf3(u64 x) { return (x ^ 221) + sa + gb; }
 u64 (*const ftab[])(u64) = {fn0, fn1, fn2, fn3, sf0, sf1, sf2, sf3};
 u64 *ptab[] = { &ga, &gb, &gc_[2], &sa, &sb[1], &ext_a };
 __attribute__((constructor)) static void ctor_a(void) { ga += 1; }
